@@ -36,6 +36,23 @@ def run(ctx):
                                    'what': 'logging=%s: a callback\'s writes through pointer arguments that point into the caller\'s frame were lost at %d of %d stack depths (first: %s); with logging off none are lost' % (
                                        mode, lost, int(ctx.stats.get('outparam_depths:' + mode, 0)), ctx.notes.get('outparam_lost_at:' + mode)),
                                    'case': {'mode': mode, 'depths_lost': ctx.notes.get('outparam_lost_at:' + mode)}})
+    # library functions mocked while logging is on: how often did each callback run, per mode?  More runs than with
+    # logging off means the log path itself calls the mocked function
+    libs = {}
+    for k, v in ctx.stats.items():
+        if k.startswith('library_callback_runs:'):
+            _, fn, mode = k.split(':')
+            libs.setdefault(fn, {})[mode] = int(v)
+    for fn, per in sorted(libs.items()):
+        off = per.get('off')
+        if off is None:
+            continue
+        diff = {m: n for m, n in per.items() if n != off}
+        if diff:
+            ctx.violations.append({'key': 'C19/logger-calls-mocked-function:' + fn,
+                                   'what': 'the callback mocking %s ran %d times with logging off and %s with logging on: the log path calls the mocked function itself' % (fn, off, diff),
+                                   'case': {'function': fn, 'runs_off': off, 'runs_by_mode': diff}})
+        ctx.distinct.add('library-mock/' + fn)
     base = trans.get('off')
     if not base or len(base) < 10:
         ctx.inconclusive.append('no baseline transcript')
